@@ -20,11 +20,14 @@ import (
 	"github.com/PowerDNS/lmdb-go/lmdb"
 
 	"verif/lib/ev"
+	"verif/lib/explore"
 	"verif/lib/fleet"
 	"verif/lib/inst"
+	"verif/lib/loopworld"
 	"verif/lib/par"
 	"verif/lib/statemc"
 	"verif/lib/world"
+	"verif/lib/xrun"
 )
 
 type cfg struct {
@@ -144,6 +147,8 @@ func (s *sim) enabled() []string {
 		}
 		// a merge whose write transaction has to wait for an application transaction that is just committing
 		evs = append(evs, "X0", "X3")
+		// a snapshot this build cannot merge completely (second DBI with an unknown transform): all or nothing
+		evs = append(evs, "U")
 	}
 	return evs
 }
@@ -281,10 +286,37 @@ func (s *sim) apply(e string) (viols []viol, stop bool) {
 		}
 		s.last = header.TxnID(s.i.Env.LastTxnID())
 		s.both(func(m *model) { m.capture(s.clock); m.project() })
+	case 'U':
+		s.clock += step
+		msg := &snapshot.Snapshot{FormatVersion: 3, CompatVersion: 1}
+		msg.Meta.InstanceID = "remote"
+		msg.Meta.DatabaseName = inst.DBName
+		msg.Meta.TimestampNano = s.clock
+		d1 := snapshot.NewDBISize(256)
+		d1.SetName("d")
+		d1.SetFlags(uint64(s.dflags("d")))
+		d1.Append(snapshot.KV{Key: key(s.c, s.c.Keys[0]), Value: []byte("from-unsupported-snapshot"), TimestampNano: s.clock + step/2})
+		d2 := snapshot.NewDBISize(256)
+		d2.SetName("u")
+		d2.SetTransform("transform-of-a-future-version")
+		d2.Append(snapshot.KV{Key: []byte("uk"), Value: []byte("uv"), TimestampNano: s.clock + step/2})
+		msg.Databases = append(msg.Databases, d1, d2)
+		data, _, err := snapshot.DumpData(msg)
+		if err != nil {
+			panic(err)
+		}
+		last0 := s.i.Env.LastTxnID()
+		if _, _, err := s.i.Load(snapshot.Name(inst.DBName, "remote", "GX", time.Unix(0, int64(s.clock))), data, s.last); err == nil {
+			viols = append(viols, viol{Sig: "unsupported-snapshot-reported-as-merged", Msg: "LoadOnce returned no error for a snapshot whose second DBI has an unknown transform"})
+		}
+		if now := s.i.Env.LastTxnID(); now != last0 {
+			viols = append(viols, viol{Sig: "refused-snapshot-committed-a-transaction", Msg: fmt.Sprintf("LastTxnID %d -> %d", last0, now)})
+		}
+		// the models stay as they are: nothing of the snapshot may be visible
 	case 'L', 'X':
 		var ri int
 		fmt.Sscanf(e[1:], "%d", &ri)
-		straddle := e[0] == 'X' 
+		straddle := e[0] == 'X'
 		s.clock += step
 		msg := &snapshot.Snapshot{FormatVersion: 3, CompatVersion: 1}
 		msg.Meta.InstanceID = "remote"
@@ -522,15 +554,19 @@ func expand(hist []string, param json.RawMessage) statemc.Result {
 
 func main() {
 	flag.Parse()
-	par.ServeIfWorker(map[string]par.Handler{"x": statemc.Handler(expand)})
+	par.ServeIfWorker(map[string]par.Handler{"x": statemc.Handler(expand), "loop": xrun.Handler(runLoop)})
 	if v, ok := ev.ReplayRequested(); ok {
+		if strings.HasPrefix(v.Part, "sync-loop") {
+			xrun.Replay(v, runLoop)
+			return
+		}
 		statemc.Replay(v, expand)
 		return
 	}
 	r := ev.Start("C11")
 	defer r.RecoverMain()
 	defer world.Cleanup()
-	r.SetBudget(ev.Pick(r, 240*time.Second, 25*time.Minute))
+	r.SetBudget(ev.Pick(r, 400*time.Second, 45*time.Minute))
 	r.Assume("steady state: all application changes are made while the syncer glue runs (changes made while it is down are documented to be treated differently)",
 		"remote versions are strictly older or strictly newer than local ones (ties are C02's subject), so the model needs no tie-break",
 		"a branch is not expanded further after a mismatch with the model")
@@ -556,8 +592,28 @@ func main() {
 		st := statemc.Run(r, rn.name, "x", rn.c, rn.depth, 0)
 		cj, _ := json.Marshal(rn.c)
 		r.AddPart(&ev.Part{Name: rn.name, Engine: "E2", States: st.States, Transitions: st.Transitions, Executions: st.Transitions, Distinct: int64(st.Terminals), Exhaustive: st.Exhaustive,
-			Bound:   fmt.Sprintf("BFS depth %d of %d completed (frontier sizes %v); model comparison after every sync step; cfg %s; remote menu: newer/older x live/deleted on an existing key, a new key, a second key plus an older version, a new DBI", st.Depth, rn.depth, st.PerDepth, cj),
+			Bound:   fmt.Sprintf("BFS depth %d of %d completed (frontier sizes %v); model comparison after every sync step; cfg %s; remote menu: newer/older x live/deleted on an existing key, a new key, a second key plus an older version, a new DBI, a snapshot with an unsupported second DBI", st.Depth, rn.depth, st.PerDepth, cj),
 			Samples: st.Samples})
 	}
+	// the mirror under the real sync loop: application commits at every hook, straddling transactions, remote snapshots
+	{
+		restore := r.SubBudget(ev.Pick(r, 150*time.Second, 20*time.Minute))
+		xrun.Explore(r, "sync-loop-shadow", xrun.Opts{Kind: "loop", Bound: ev.Pick(r, 2, 3), Budget: 30, Recycle: 4,
+			Param: loopworld.Cfg{Native: false, Remote2: true, NoopRemote: true, Straddle: true, MaxVisits: 1, AppOps: []string{"put-b", "del-a", "newdbi"}}})
+		restore()
+	}
 	r.Finish()
+}
+
+// runLoop: the sync-loop scenario; only the mirror oracle (c11:) is judged here.
+func runLoop(param json.RawMessage, ctx *explore.Ctx, viols *[]xrun.Viol) string {
+	var cfg loopworld.Cfg
+	_ = json.Unmarshal(param, &cfg)
+	res := loopworld.Run(cfg, ctx)
+	for _, v := range res.Viols {
+		if loopworld.Judged(v.Sig, "c11") {
+			*viols = append(*viols, xrun.Viol{Sig: v.Sig, Msg: v.Msg})
+		}
+	}
+	return fmt.Sprintf("%s/stores=%d/loads=%d", res.Outcome, res.Stores, res.Loads)
 }
